@@ -92,7 +92,9 @@ type c14cfg struct {
 	s, c       int
 }
 
-func (g c14cfg) String() string { return fmt.Sprintf("%d %d %d %d", b2i(g.snct), b2i(g.cnct), g.s, g.c) }
+func (g c14cfg) String() string {
+	return fmt.Sprintf("%d %d %d %d", b2i(g.snct), b2i(g.cnct), g.s, g.c)
+}
 func (g c14cfg) params() wsflate.Parameters {
 	return wsflate.Parameters{ServerNoContextTakeover: g.snct, ClientNoContextTakeover: g.cnct,
 		ServerMaxWindowBits: wsflate.WindowBits(g.s), ClientMaxWindowBits: wsflate.WindowBits(g.c)}
@@ -363,8 +365,8 @@ const (
 	c14CMWB = "client_max_window_bits"
 )
 
-func kv(k, v string) c14param  { return c14param{key: []byte(k), val: []byte(v), hasVal: true} }
-func kflag(k string) c14param  { return c14param{key: []byte(k)} }
+func kv(k, v string) c14param     { return c14param{key: []byte(k), val: []byte(v), hasVal: true} }
+func kflag(k string) c14param     { return c14param{key: []byte(k)} }
 func pmd(ps ...c14param) c14offer { return c14offer{name: []byte(c14Name), params: ps} }
 
 // c14GridOffer: s in 0 (absent), 8..15; cm in 0 (absent), 1 (valueless), 8..15
@@ -487,8 +489,8 @@ func c14Alphabet() []c14offer {
 		pmd(kflag(c14SNCT), kv(c14CMWB, "9")),
 		pmd(kv(c14SMWB, "8"), kflag(c14CMWB), kflag(c14CNCT)),
 		pmd(kv(c14CMWB, "12"), kv(c14SMWB, "12"), kflag(c14SNCT), kflag(c14CNCT)),
-		pmd(kv(c14SMWB, "7")),                     // ill-valued
-		pmd(kflag(c14SNCT), kflag(c14SNCT)),       // duplicate
+		pmd(kv(c14SMWB, "7")),                    // ill-valued
+		pmd(kflag(c14SNCT), kflag(c14SNCT)),      // duplicate
 		{name: []byte("x-webkit-deflate-frame")}, // other extension
 		{name: []byte("permessage-deflatex"), params: []c14param{kv(c14SMWB, "99")}},
 	}
